@@ -6,6 +6,7 @@ import (
 	"context"
 	"errors"
 	"fmt"
+	"io"
 	"math/rand"
 	"net"
 	"runtime"
@@ -159,9 +160,21 @@ func runLoopScenario(t *testing.T, sc *loopScenario) *loopRun {
 				r.logf("acceptfail other")
 				offer(acceptResult{err: errors.New("accept boom")})
 				ended = true
+			case "acceptfaileof": // end-of-input is an ordinary failure of the accepter, not a closed listener
+				r.logf("acceptfail other")
+				offer(acceptResult{err: fmt.Errorf("accept boom: %w", io.EOF)})
+				ended = true
+			case "acceptfaileofbare":
+				r.logf("acceptfail other:EOF")
+				offer(acceptResult{err: io.EOF})
+				ended = true
 			case "acceptclosing":
 				r.logf("acceptfail closing")
 				offer(acceptResult{err: net.ErrClosed})
+				ended = true
+			case "acceptclosingwrapped": // errors that wrap the closed-listener errors count as such
+				r.logf("acceptfail closing")
+				offer(acceptResult{err: fmt.Errorf("listener: %w", []error{net.ErrClosed, channel.ErrClosed}[op.Arg%2])})
 				ended = true
 			}
 		}
@@ -222,6 +235,124 @@ func containsPrefix(log []string, p string) bool {
 	return false
 }
 
+// memListener is an in-memory net.Listener: Accept hands out queued connections, blocks when there
+// are none, and fails with net.ErrClosed once closed (as a TCP listener does).
+type memListener struct {
+	mu      sync.Mutex
+	conns   chan net.Conn
+	closed  chan struct{}
+	nclosed int
+	onHand  func() // called as Accept hands back a connection
+}
+
+func newMemListener() *memListener {
+	return &memListener{conns: make(chan net.Conn, 8), closed: make(chan struct{})}
+}
+func (l *memListener) Accept() (net.Conn, error) {
+	select {
+	case <-l.closed:
+		return nil, &net.OpError{Op: "accept", Net: "mem", Err: net.ErrClosed}
+	default:
+	}
+	select {
+	case c := <-l.conns:
+		if l.onHand != nil {
+			l.onHand()
+		}
+		return c, nil
+	case <-l.closed:
+		return nil, &net.OpError{Op: "accept", Net: "mem", Err: net.ErrClosed}
+	}
+}
+func (l *memListener) Close() error {
+	l.mu.Lock()
+	defer l.mu.Unlock()
+	l.nclosed++
+	if l.nclosed == 1 {
+		close(l.closed)
+	}
+	return nil
+}
+func (l *memListener) Addr() net.Addr { return &net.UnixAddr{Name: "mem", Net: "mem"} }
+
+// c20NetAccepter: Loop over NetAccepter ends with nil when the context ends - wherever Loop happens
+// to be at that moment: blocked in Accept, between two Accepts, or not yet started - and the
+// listener is closed; every accepted connection is served and finished first.
+func c20NetAccepter(t *testing.T, res *Result) {
+	for _, when := range []string{"in-accept", "between-accepts", "before-start", "after-two"} {
+		synctest.Test(t, func(t *testing.T) {
+			lst := newMemListener()
+			ctx, cancel := context.WithCancel(context.Background())
+			defer cancel()
+			var mu sync.Mutex
+			finished, started := 0, 0
+			svc := func() server.Service {
+				mu.Lock()
+				started++
+				mu.Unlock()
+				return c20Svc{finish: func() { mu.Lock(); finished++; mu.Unlock() }}
+			}
+			var peers []net.Conn
+			connect := func() {
+				a, b := net.Pipe()
+				peers = append(peers, a)
+				lst.conns <- b
+			}
+			switch when {
+			case "between-accepts":
+				lst.onHand = cancel // the context ends while Loop is busy with the connection it just got
+				connect()
+			case "before-start":
+				cancel()
+			case "after-two":
+				connect()
+				connect()
+			}
+			done := make(chan error, 1)
+			go func() { done <- server.Loop(ctx, server.NetAccepter(lst, channel.Line), svc, nil) }()
+			synctest.Wait()
+			if when == "in-accept" || when == "after-two" {
+				cancel()
+			}
+			synctest.Wait()
+			for _, p := range peers {
+				p.Close()
+			}
+			synctest.Wait()
+			in := map[string]any{"netaccepter": when}
+			res.Case("netaccepter/"+when, true, in)
+			res.Count("netaccepter")
+			select {
+			case err := <-done:
+				if err != nil {
+					res.Violatef("Loop over NetAccepter did not return nil when the context ended", in, "context ended %s: Loop returned %v", when, err)
+				}
+			default:
+				res.Violatef("Loop over NetAccepter never returned after the context ended", in, "context ended %s", when)
+				lst.Close()
+			}
+			lst.mu.Lock()
+			nc := lst.nclosed
+			lst.mu.Unlock()
+			if nc == 0 {
+				res.Violatef("NetAccepter left the listener open after the context ended", in, "context ended %s", when)
+			}
+			mu.Lock()
+			if started != finished {
+				res.Violatef("Loop returned before a started server had been finished", in, "context ended %s: %d services started, %d finished", when, started, finished)
+			}
+			mu.Unlock()
+		})
+	}
+}
+
+type c20Svc struct{ finish func() }
+
+func (s c20Svc) Assigner() (jrpc2.Assigner, error) {
+	return handler.Map{"m": handler.New(func(context.Context) (int, error) { return 1, nil })}, nil
+}
+func (s c20Svc) Finish(jrpc2.Assigner, jrpc2.ServerStatus) { s.finish() }
+
 func TestC20(t *testing.T) {
 	res := newResult("C20", "scenarios: up to 4 connections with every order of connect (with and without a failing Assigner) / client close / context cancel / accepter failure (closed-listener error or other), traffic on some connections; Loop run inside a synctest bubble with an in-memory Accepter and instrumented services; the call log is replayed on the Loop machine and checked directly (one newService per connection before its Assigner, one Finish per started server with its own assigner and status, Loop returns last, return value, failed service's connection closed). distinct = distinct op script; non-trivial = at least two connections")
 	defer res.Write(t)
@@ -229,6 +360,7 @@ func TestC20(t *testing.T) {
 	var lines []string
 	var logs [][]string
 	var ins []any
+	c20NetAccepter(t, res)
 	runOne := func(sc *loopScenario) {
 		r := runLoopScenario(t, sc)
 		in := map[string]any{"loopscenario": sc}
@@ -237,6 +369,7 @@ func TestC20(t *testing.T) {
 		started := map[int]bool{}
 		retAt := -1
 		closing := true
+		wantText := "accept boom"
 		nconn := 0
 		for i, e := range r.Log {
 			f := strings.Fields(e)
@@ -277,6 +410,10 @@ func TestC20(t *testing.T) {
 				trace = append(trace, "c")
 			case "acceptfail":
 				closing = f[1] == "closing"
+				wantText = "accept boom"
+				if strings.HasPrefix(f[1], "other:") {
+					wantText = strings.TrimPrefix(f[1], "other:")
+				}
 				trace = append(trace, "e:"+bit(closing))
 			case "loopreturn":
 				retAt = i
@@ -285,7 +422,7 @@ func TestC20(t *testing.T) {
 				if closing && got != "<nil>" {
 					res.Violatef("Loop did not return nil for a closed-listener error", in, "%s", e)
 				}
-				if !closing && !strings.Contains(got, "accept boom") {
+				if !closing && !strings.Contains(got, wantText) {
 					res.Violatef("Loop did not return the accepter's error", in, "%s", e)
 				}
 			case "failedconn":
@@ -315,7 +452,7 @@ func TestC20(t *testing.T) {
 		logs = append(logs, r.Log)
 		ins = append(ins, in)
 	}
-	kinds := []string{"connect", "connect", "connectfail", "clientclose", "cancel", "call", "acceptfail", "acceptclosing", "connect+closing"}
+	kinds := []string{"connect", "connect", "connectfail", "clientclose", "cancel", "call", "acceptfail", "acceptclosing", "connect+closing", "acceptfaileof", "acceptfaileofbare", "acceptclosingwrapped"}
 	for i := 0; i < pick(400, 4000); i++ {
 		sc := &loopScenario{}
 		n := 1 + rng.Intn(7)
@@ -336,7 +473,10 @@ func TestC20(t *testing.T) {
 				conns++
 			}
 			sc.Ops = append(sc.Ops, op)
-			if strings.HasPrefix(k, "acceptfail") || k == "acceptclosing" || k == "connect+closing" {
+			if k == "acceptclosingwrapped" {
+				op.Arg = rng.Intn(2)
+			}
+			if strings.HasPrefix(k, "acceptfail") || strings.HasPrefix(k, "acceptclosing") || k == "connect+closing" {
 				break
 			}
 		}
